@@ -43,6 +43,7 @@ structure NodeOK (cx : PCtx) (k : SKw) (kids : Kids) (σ : D6.SSub) : Prop where
   inj : InjOn cx (kids.props.map (·.1) ++ k.required.getD [])
   synth : typeHasObject k = true →
     kids.addProps = (none, true) ∨ ∀ n ∈ k.required.getD [], n ∈ kids.props.map (·.1)
+  nonempty : ∀ n ∈ kids.props.map (·.1) ++ k.required.getD [], n ≠ ""
 
 theorem mkElem_element (kw : Kw) (p : Parts) :
     mkElem .element (Gen.Param.names Gen.sigElement) kw p =
@@ -58,8 +59,6 @@ theorem all_append_sub {l₁ l₂ : List String} (f : String → Bool) (h : ∀ 
     simp only [Bool.true_and, List.all_eq_true]
     intro x hx
     exact List.all_eq_true.mp h1 x (h x hx)
-
-theorem src_mkKey (cx : PCtx) (req : List String) (n : String) : (mkKey cx req n).src = n := rfl
 
 /-- the closures of an element assembled from `partsOf cx k kids` -/
 def subOf (env : Env) (p : Parts) : VSub :=
@@ -79,11 +78,20 @@ theorem prod_eta {α β} (p : α × β) : p = (p.1, p.2) := rfl
 def declared (env : Env) (cx : PCtx) (k : SKw) (kids : Kids) : List VProp :=
   kids.props.map fun kv => (mkKey cx (k.required.getD []) kv.1, kv.2.kw.default, kv.2.acc env)
 
-theorem srcs_declared (env : Env) (cx : PCtx) (k : SKw) (kids : Kids) :
+theorem srcs_declared (env : Env) (cx : PCtx) (k : SKw) (kids : Kids)
+    (hne : ∀ n ∈ kids.props.map (·.1), n ≠ "") :
     srcs (declared env cx k kids) = kids.props.map (·.1) := by
   unfold srcs declared
   rw [List.map_map]
-  rfl
+  apply List.map_congr_left
+  intro kv hkv
+  exact src_mkKey cx _ kv.1 (hne kv.1 (List.mem_map.mpr ⟨kv, hkv, rfl⟩))
+
+theorem NodeOK.propsNonempty {cx : PCtx} {k : SKw} {kids : Kids} {σ : D6.SSub} (N : NodeOK cx k kids σ) :
+    ∀ n ∈ kids.props.map (·.1), n ≠ "" := fun n hn => N.nonempty n (List.mem_append_left _ hn)
+
+theorem NodeOK.propsNonempty' {cx : PCtx} {k : SKw} {kids : Kids} {σ : D6.SSub} (N : NodeOK cx k kids σ) :
+    ∀ kv ∈ kids.props, kv.1 ≠ "" := fun kv hkv => N.propsNonempty kv.1 (List.mem_map.mpr ⟨kv, hkv, rfl⟩)
 
 theorem inj_props {cx : PCtx} {k : SKw} {kids : Kids} {σ : D6.SSub} (N : NodeOK cx k kids σ) :
     InjOn cx (kids.props.map (·.1)) :=
@@ -114,8 +122,8 @@ theorem setup_untyped {env : Env} {cx : PCtx} {k : SKw} {kids : Kids} {σ : D6.S
   split := by
     simp only [subOf, partsOf, List.append_nil]
     exact accProps_build env cx k kids σ N
-  decl := props_rel K.props
-  dist := by rw [List.append_nil, srcs_declared]; exact N.propNames
+  decl := props_rel K.props N.propsNonempty'
+  dist := by rw [List.append_nil, srcs_declared _ _ _ _ N.propsNonempty]; exact N.propNames
   synth := fun p hp => by cases hp
   perm := fun h => absurd rfl h
   pats := by
@@ -133,7 +141,7 @@ theorem deps_split (env : Env) (cx : PCtx) (k : SKw) (kids : Kids) :
 
 /-- `required` on an untyped element: the explicit list already contains the flagged properties -/
 theorem required_strict (env : Env) (cx : PCtx) (k : SKw) (kids : Kids) (σ : D6.SSub) (d : Option JVal)
-    (p : Parts) (kvs : List (String × JVal)) :
+    (p : Parts) (kvs : List (String × JVal)) (hne : ∀ kv ∈ kids.props, kv.1 ≠ "") :
     ((requiredNames (baseKw k p d) ((declared env cx k kids).map fun q => (q.1, q.2.1))).all
         fun n => (JVal.keys kvs).contains n) = D6.requiredOk false k σ kvs := by
   unfold requiredNames D6.requiredOk
@@ -144,9 +152,11 @@ theorem required_strict (env : Env) (cx : PCtx) (k : SKw) (kids : Kids) (σ : D6
   have hq' := (List.mem_filter.mp hq).2
   simp only [Bool.and_eq_true] at hq'
   obtain ⟨q0, hq0, rfl⟩ := List.mem_map.mp (List.mem_filter.mp hq).1
-  obtain ⟨kv, _, rfl⟩ := List.mem_map.mp hq0
+  obtain ⟨kv, hkv, rfl⟩ := List.mem_map.mp hq0
   simp only [mkKey] at hq'
-  simpa [Key.src, mkKey] using hq'.1
+  show (mkKey cx (k.required.getD []) kv.1).src ∈ _
+  rw [src_mkKey cx _ kv.1 (hne kv hkv)]
+  simpa using hq'.1
 
 theorem RC_untyped {env : Env} {cx : PCtx} {k : SKw} {kids : Kids} {σ : D6.SSub} (d : Option JVal)
     (K : KidsRel env kids σ) (N : NodeOK cx k kids σ) :
@@ -179,7 +189,7 @@ theorem RC_untyped {env : Env} {cx : PCtx} {k : SKw} {kids : Kids} {σ : D6.SSub
     simp only [constructV]
     have S := setup_untyped K N (baseKw k (partsOf cx k kids) d) rfl
     have hO := R_object (k := k) (fun _ => false) kvs S hv rfl rfl
-      (by rw [S.split, List.append_nil]; exact required_strict env cx k kids σ d _ kvs)
+      (by rw [S.split, List.append_nil]; exact required_strict env cx k kids σ d _ kvs N.propsNonempty')
       (accOpt_rel K.propNames) (deps_split env cx k kids) (deps_rel K.deps)
     have := R.and (R.ofBool (D6.literalOk k (.obj kvs))) hO
     refine this.congr2 ?_ ?_ <;> ac_rfl
